@@ -125,6 +125,8 @@ Definition direct_fd (cf : cfg) (s : pstate) (handle inode flags : N) : res hdat
 
 Definition fd_append (hd : hdata) (flags : N) : bool :=
   if hd_flags hd =? flags then hd_append hd else has flags O_APPEND.
+Definition fd_direct (hd : hdata) (flags : N) : bool :=
+  if hd_flags hd =? flags then hd_direct hd else has flags O_DIRECT.
 
 Definition size_step (cf : cfg) (tbl : list (N * idata)) (h2 : host) (inode : N) (hdo : option hdata) (valid size : N) : res unit * host :=
   let c := root_kp (c_killpriv cf && has valid FATTR_KILL_SUIDGID) in
@@ -179,6 +181,7 @@ Definition direct_host (cf : cfg) (s : pstate) (q : req) : host :=
       | (Err _, h') => h'
       | (Ok hd, h') =>
           if negb (acc_w (hd_acc hd)) then h'
+          else if fd_direct hd flags && (0 <? len data) then h'
           else snd (sys_pwrite (root_kp (c_killpriv cf && has ff WRITE_KILL_PRIV)) h' (hd_host hd) (fd_append hd flags) off data)
       end
   | QRead inode handle size off flags => snd (direct_fd cf s handle inode O_RDONLY)
@@ -309,10 +312,10 @@ Proof.
 Qed.
 
 Lemma check_fd_flags_direct : forall s hid hd flags hd' s', check_fd_flags s hid hd flags = (hd', s') ->
-  hd_host hd' = hd_host hd /\ hd_acc hd' = hd_acc hd /\ hd_append hd' = fd_append hd flags /\
+  hd_host hd' = hd_host hd /\ hd_acc hd' = hd_acc hd /\ hd_append hd' = fd_append hd flags /\ hd_direct hd' = fd_direct hd flags /\
   p_host s' = p_host s /\ p_creds s' = p_creds s.
 Proof.
-  intros s hid hd flags hd' s' H. unfold check_fd_flags in H. unfold fd_append.
+  intros s hid hd flags hd' s' H. unfold check_fd_flags in H. unfold fd_append, fd_direct.
   destruct (hd_flags hd =? flags); [inversion H; subst; repeat split; reflexivity|].
   destruct hid; inversion H; subst; repeat split; reflexivity.
 Qed.
@@ -461,13 +464,20 @@ Proof.
     cbn [fst snd] in Hb2; inversion Hb2; subst; reflexivity.
 Qed.
 
+Lemma forget_one_host : forall s i c, p_host (forget_one s i c) = p_host s.
+Proof. intros s i c. unfold forget_one. destruct (i =? ROOT_ID); [reflexivity|]. destruct (assoc i (p_inodes s)); reflexivity. Qed.
+
 Theorem tree_full : C05_full.
 Proof.
   intros cf s q rp io ho s' Hc H. unfold pstep in H. unfold direct_host, Ino. destruct q; cbv beta zeta in H |- *.
   - (* lookup *)
     destruct (lookup_check n); [inv4 H; reflexivity|].
     destruct (entry_reply (do_lookup s parent n)) as [[rp0 io0] s0] eqn:He. inv4 H. apply (entry_reply_host _ _ _ _ _ _ He).
-  - (* forget *) inv4 H. unfold forget_one. destruct (inode =? ROOT_ID); [reflexivity|]. destruct (assoc inode (p_inodes s)); reflexivity.
+  - (* forget *) inv4 H. apply forget_one_host.
+  - (* batch_forget *) inv4 H.
+    assert (Hf : forall s0, p_host (fold_left (fun s1 p => forget_one s1 (fst p) (snd p)) l s0) = p_host s0).
+    { induction l as [|p l IH]; intros s0; cbn [fold_left]; [reflexivity|]. rewrite IH. apply forget_one_host. }
+    apply Hf.
   - (* getattr *) destruct (do_getattr cf s inode handle); inv4 H; reflexivity.
   - (* setattr *)
     destruct (assoc inode (p_inodes s)) as [d|] eqn:Ha; [|inv4 H; reflexivity].
@@ -603,8 +613,9 @@ Proof.
     destruct (get_data_direct _ _ _ _ _ _ _ Hc Hg) as [Hh1 _].
     destruct r as [[hid hd]|e]; [|inv4 H; exact Hh1].
     destruct (check_fd_flags s1 hid hd flags) as [hd' s2] eqn:Hf.
-    destruct (check_fd_flags_direct _ _ _ _ _ _ Hf) as [_ [_ [_ [Hh2 _]]]].
+    destruct (check_fd_flags_direct _ _ _ _ _ _ Hf) as [_ [_ [_ [_ [Hh2 _]]]]].
     destruct (negb (acc_r (hd_acc hd'))); [inv4 H; rewrite Hh2; exact Hh1|].
+    destruct (hd_direct hd' && (0 <? size)); [inv4 H; rewrite Hh2; exact Hh1|].
     destruct (sys_pread (p_host s2) (hd_host hd') size off); inv4 H; rewrite Hh2; exact Hh1.
   - (* write *)
     destruct (get_data cf (c_no_open cf) s handle inode O_RDWR) as [r s1] eqn:Hg.
@@ -612,13 +623,15 @@ Proof.
     destruct (direct_fd cf s handle inode O_RDWR) as [rd hd0] eqn:Hd. cbn [fst snd] in Hh1, Hr.
     destruct r as [[hid hd]|e]; [|subst rd; fin4 H; exact Hh1]. subst rd.
     destruct (check_fd_flags s1 hid hd flags) as [hd' s2] eqn:Hf.
-    destruct (check_fd_flags_direct _ _ _ _ _ _ Hf) as [Hho [Hac [Hap [Hh2 Hc2]]]].
+    destruct (check_fd_flags_direct _ _ _ _ _ _ Hf) as [Hho [Hac [Hap [Hdi [Hh2 Hc2]]]]].
     match type of H with context [with_killpriv ?c s2 ?b] =>
       destruct (with_killpriv_from_root _ c s2 b (eq_trans Hc2 Hc1)) as [c1 [r [s3 [Hb Hw]]]]; rewrite Hw in H; clear Hw end.
-    rewrite <- Hac.
+    rewrite <- Hac, <- Hdi.
     destruct (negb (acc_w (hd_acc hd'))).
     + injection Hb as Er Es. destruct r; fin4 H; rewrite <- Es; cbn [p_host with_creds_of]; rewrite Hh2; exact Hh1.
-    + cbn [p_creds p_host with_creds_of] in Hb. rewrite Hh2, Hh1, Hho, Hap in Hb.
+    + destruct (hd_direct hd' && (0 <? len data)).
+      { injection Hb as Er Es. destruct r; fin4 H; rewrite <- Es; cbn [p_host with_creds_of]; rewrite Hh2; exact Hh1. }
+      cbn [p_creds p_host with_creds_of] in Hb. rewrite Hh2, Hh1, Hho, Hap in Hb.
       match type of Hb with context [sys_pwrite ?c ?h ?i ?a ?o ?dd] => destruct (sys_pwrite c h i a o dd) as [rr hh] end.
       injection Hb as Er Es. destruct r; fin4 H; rewrite <- Es; reflexivity.
   - (* readlink *)
@@ -958,3 +971,58 @@ Theorem time_spec_cases : forall valid nb sb sec nsec,
 Proof.
   intros. unfold time_spec. split; [reflexivity|]. repeat split; intros; repeat match goal with H : has _ _ = _ |- _ => rewrite H end; reflexivity.
 Qed.
+
+(* ---- the per-request flags word of READ/WRITE: check_fd_flags hands it to fcntl(F_SETFL) whenever it differs from the
+   flags recorded for the descriptor; of the bits F_SETFL honours (O_APPEND, O_NONBLOCK, O_DIRECT, O_NOATIME) only
+   O_APPEND changes what pread/pwrite do to a regular file; pwrite on an O_APPEND descriptor appends whatever the offset *)
+Theorem write_flags_status : forall s hid hd flags hd' s', check_fd_flags s hid hd flags = (hd', s') ->
+  hd_flags hd' = flags /\ hd_append hd' = fd_append hd flags /\
+  (hd_flags hd <> flags -> hd_append hd' = has flags O_APPEND) /\ (hd_flags hd = flags -> hd' = hd /\ s' = s).
+Proof.
+  intros s hid hd flags hd' s' H. destruct (check_fd_flags_sets _ _ _ _ _ _ H) as [H1 [_ [_ [H4 _]]]].
+  destruct (check_fd_flags_direct _ _ _ _ _ _ H) as [_ [_ [H3 _]]].
+  split; [exact H1|]. split; [exact H3|]. split; [exact H4|].
+  intros E. unfold check_fd_flags in H. apply N.eqb_eq in E. rewrite E in H. inversion H; subst. split; reflexivity.
+Qed.
+
+Theorem pwrite_append_ignores_offset : forall c h i off off' w,
+  sys_pwrite c h i true off w = sys_pwrite c h i true off' w.
+Proof. intros. unfold sys_pwrite. destruct (get h i) as [v|]; [|reflexivity]. destruct (i_kind v); reflexivity. Qed.
+
+(* Under writeback the client kernel owns O_APPEND: open clears it on the descriptor (C05_flags_writeback_no_append).
+   The FULL statement "under writeback no descriptor of the handle map ever carries O_APPEND" is REFUTED: check_fd_flags
+   re-applies the request's O_APPEND through F_SETFL (reproduced on the real code; known finding). *)
+Definition C05_writeback_append_full : Prop :=
+  forall cf s q rp io ho s', c_writeback cf = true -> p_creds s = root_creds ->
+    (forall k hd, assoc k (p_handles s) = Some hd -> hd_append hd = false) ->
+    pstep cf s q = (rp, io, ho, s') ->
+    forall k hd, assoc k (p_handles s') = Some hd -> hd_append hd = false.
+
+Definition wb_cfg : cfg := mkCfg true false false true false true 3 false.
+Definition wb_host : host :=
+  mkHost [(10, mkInode (KDir [([102], 11)] 10 false) 511 0 0 []); (11, mkInode (KReg [48; 49; 50; 51]) 420 0 0 [])] 12 [].
+Definition wb_state : pstate :=
+  r_p (snd (run wb_cfg (start wb_host 10) [SLookup (Slot 0) [102]; SOpen (Slot 1) (O_WRONLY + O_APPEND) 0])).
+
+Theorem writeback_append_refuted : ~ C05_writeback_append_full.
+Proof.
+  intros F.
+  assert (H0 : forall k hd, assoc k (p_handles wb_state) = Some hd -> hd_append hd = false).
+  { assert (E : p_handles wb_state = [(1, mkHdata 2 11 524290 false 0 1025 false)]) by (vm_compute; reflexivity).
+    intros k hd H. rewrite E in H. cbn [assoc] in H. destruct (1 =? k); [inversion H; subst; reflexivity | discriminate H]. }
+  (* first WRITE without O_APPEND in its flags, second with: the second sets O_APPEND on the descriptor *)
+  pose (s1 := snd (pstep wb_cfg wb_state (QWrite 2 1 0 [65] O_WRONLY 0))).
+  assert (H1 : forall k hd, assoc k (p_handles s1) = Some hd -> hd_append hd = false).
+  { assert (E : p_handles s1 = [(1, mkHdata 2 11 524290 false 0 1 false)]) by (vm_compute; reflexivity).
+    intros k hd H. rewrite E in H. cbn [assoc] in H. destruct (1 =? k); [inversion H; subst; reflexivity | discriminate H]. }
+  specialize (F wb_cfg s1 (QWrite 2 1 0 [66] (O_WRONLY + O_APPEND) 0) _ _ _ _ eq_refl eq_refl H1 eq_refl 1).
+  vm_compute in F. specialize (F _ eq_refl). discriminate F.
+Qed.
+
+(* what the refutation means for the data: the same request (flags with O_APPEND, offset 0) first overwrites at 0, later appends *)
+Lemma writeback_append_witness :
+  let s1 := snd (pstep wb_cfg wb_state (QWrite 2 1 0 [65] (O_WRONLY + O_APPEND) 0)) in
+  let s2 := snd (pstep wb_cfg s1 (QWrite 2 1 0 [66] O_WRONLY 0)) in
+  let s3 := snd (pstep wb_cfg s2 (QWrite 2 1 0 [67] (O_WRONLY + O_APPEND) 0)) in
+  sys_pread (p_host s1) 11 16 0 = Ok [65; 49; 50; 51] /\ sys_pread (p_host s3) 11 16 0 = Ok [66; 49; 50; 51; 67].
+Proof. vm_compute. split; reflexivity. Qed.
